@@ -14,6 +14,7 @@ import (
 	"fmt"
 	"os"
 
+	"github.com/karino2/folang/pkg/dict"
 	"github.com/karino2/folang/pkg/frt"
 	"github.com/karino2/folang/pkg/slice"
 )
@@ -144,6 +145,22 @@ func dSlice[T any](v []any, de func([]any) T, junkSrc any) []T {
 		return slice.PopLast([]T{junk})
 	case "tailToEmpty":
 		return slice.Tail([]T{junk})
+	case "frtEmpty":
+		return frt.Empty[[]T]()
+	case "dictValuesEmpty":
+		return dict.Values(dict.New[int, T]())
+	case "collectEmpty":
+		return slice.Collect(func(x T) []T { return frt.Empty[[]T]() }, []T{junk})
+	case "concatEmpty":
+		return slice.Concat([][]T{frt.Empty[[]T](), {}})
+	case "dictValues":
+		d := dict.New[int, T]()
+		dict.Add(d, 3, es[0])
+		return dict.Values(d)
+	case "collect":
+		return slice.Collect(func(x T) []T { return []T{x} }, lit(es))
+	case "concat":
+		return slice.Concat([][]T{frt.Empty[[]T](), lit(es[:len(es)/2]), {}, lit(es[len(es)/2:])})
 	case "pushLast":
 		r := slice.New[T]()
 		for _, e := range es {
